@@ -247,6 +247,8 @@ pub struct Setup {
     pub geoip_db: Option<Vec<u8>>,
     /// time-to-live of the entries of the DNS cache in seconds (the default never lets a seeded entry go stale)
     pub dns_ttl_s: u64,
+    /// the targets are IPv6 addresses (settings rows and address formatting differ by family)
+    pub target_v6: bool,
     /// the target of trace t is the sentinel address 90 + t (C18) instead of 203.0.113.x
     pub target_sentinel: bool,
 }
@@ -265,6 +267,7 @@ impl Default for Setup {
             geoip_file: None,
             geoip_db: None,
             dns_ttl_s: 1 << 30,
+            target_v6: false,
             target_sentinel: false,
         }
     }
@@ -373,7 +376,7 @@ pub fn mk_sut(setup: &Setup) -> Sut {
         .max_flows
         .iter()
         .enumerate()
-        .map(|(i, mf)| mk_tracer(if setup.target_sentinel { addr(90 + i as u32) } else { target_addr(i) }, *mf, 64, 100 + i as u16))
+        .map(|(i, mf)| mk_tracer(if setup.target_sentinel { addr(90 + i as u32) } else if setup.target_v6 { IpAddr::V6(std::net::Ipv6Addr::new(0x2001, 0xdb8, 0, 0, 0, 0, 0x10, 10 + i as u16)) } else { target_addr(i) }, *mf, 64, 100 + i as u16))
         .collect();
     let cols = match &setup.cols {
         Some(c) => TuiColumns::try_from(c.as_str()).expect("columns"),
